@@ -30,7 +30,8 @@ class ElabWorld(World):
     stub_components = ("free-standing subordinate / initiator interfaces and register element "
                        "ports driven by seeded values",)
     fault_kinds = ("re_elaboration", "simulate_then_convert", "convert_then_simulate",
-                   "repeated_conversion", "extended_after_elaboration")
+                   "repeated_conversion", "extended_after_elaboration",
+                   "two_instances_in_one_design")
     assumptions = (
         "RTLIL text equality of successive conversions is taken as 'the same hardware'; trace "
         "equality of two simulations under identical stimulus as its behavioural counterpart",
@@ -56,6 +57,8 @@ class ElabWorld(World):
         ops = []
         for _ in range(rng.range(2, 4)):
             ops.append({"k": rng.choice(["rtlil", "rtlil", "sim"])})
+        if rng.chance(0.25):
+            ops.insert(rng.below(len(ops) + 1), {"k": "pair"})
         return ops
 
     def run(self, config, ops, props, stats, hist):
@@ -154,6 +157,17 @@ class ElabWorld(World):
                     stats.fault("simulate_then_convert")
                 if len(texts) > 1:
                     stats.fault("repeated_conversion")
+            elif k == "pair":
+                # a second instance built from the same parameters lives in the same design
+                # (two identical register banks / decoders / memories side by side)
+                twin2 = build(config["cfg"])
+                top = hw.make_top(b.dut, twin2.dut)
+                both = ports + [s for _, s in twin2.inputs + twin2.outputs]
+                guarded(step, "rtlil.convert() of a design with two instances",
+                        lambda: rtlil.convert(top, ports=both))
+                stats.fault("two_instances_in_one_design")
+                hist.rec(step, k)
+                continue
             elif k == "sim":
                 tr = simulate(step)
                 traces.append(tr)
